@@ -391,7 +391,7 @@ func (c *Ctx) connectValidation() {
 		{"will-retain-without-will-flag", with(Assume{"call:ConnectMessage.WillFlag": false, "call:ConnectMessage.WillRetain": true}), -1, "a CONNECT with Will Retain set but Will Flag 0"},
 		{"will-qos-without-will-flag", with(Assume{"call:ConnectMessage.WillFlag": false, "eq:ConnectMessage.WillQos:0": false}), -1, "a CONNECT with a Will QoS but Will Flag 0"},
 		{"empty-client-id-without-clean-session", with(Assume{"eq:len(message.ConnectMessage.clientID):0": true, "gt:len(message.ConnectMessage.clientID):0": false, "call:ConnectMessage.CleanSession": false}), 2, "a CONNECT with an empty client identifier and CleanSession=0"},
-		{"unacceptable-client-id", with(Assume{"eq:len(message.ConnectMessage.clientID):0": false, "gt:len(message.ConnectMessage.clientID):0": true, "call:ConnectMessage.validClientID": false}), 2, "a CONNECT with an unacceptable client identifier"},
+		{"unacceptable-client-id", with(Assume{"eq:len(message.ConnectMessage.clientID):0": false, "gt:len(message.ConnectMessage.clientID):0": true, "call:ConnectMessage.validClientID": false, "call:Regexp.Match": false}), 2, "a CONNECT with an unacceptable client identifier"},
 	}
 	for _, x := range rejs {
 		key := "CONNECT-decode:rejects(" + x.name + ")"
